@@ -49,7 +49,8 @@ def plans(prop, tier):
              prof(28, nops=m, pool=40, maxlen=2, alpha=3, mode="mix", pput=25, prem=10, pget=10, pscan=25, piscan=30, pmem=0, pprobe=85, dumpevery=0, ppair=45),
              # storages that are emptied completely again and again: reads of the kept, deleted root border must still collect it
              prof(27, nops=m, pool=12, maxlen=2, alpha=3, mode="mix", pput=22, prem=8, pget=15, pscan=28, piscan=27, pmem=0, pprobe=60, dumpevery=0, pdrain=45)]
-        M = ["MC_Tree_scan5.cfg"] if q else ["MC_Tree_scan5.cfg", "MC_Tree_scan5b.cfg", "MC_Tree_scan6.cfg"]
+        # + the sequential cursor (YkIscan) in every reachable state of the small tree model: callback set covers every gap of the consumed part
+        M = ["MC_Tree_scan5.cfg", "MC_Iscan_5ph.cfg"] if q else ["MC_Tree_scan5.cfg", "MC_Tree_scan5b.cfg", "MC_Tree_scan6.cfg", "MC_Iscan_5ph.cfg", "MC_Iscan_5b.cfg", "MC_Iscan_5F.cfg", "MC_Iscan_5G.cfg"]
     elif prop == "C08":
         on = ["C08"]
         m = 300 if q else 800
@@ -73,7 +74,8 @@ def plans(prop, tier):
              prof(44, nops=n, pool=60, maxlen=3, alpha=3, mode="prefix", pput=40, prem=12, pget=0, pscan=0, piscan=48, pmem=0, pprobe=0, dumpevery=0, pmod=60),
              prof(45, nops=n, pool=90, maxlen=3, alpha=3, pput=40, prem=12, pget=0, pscan=0, piscan=48, pmem=0, pprobe=0, dumpevery=0, pmod=60),
              prof(46, nops=n + 200, pool=200, maxlen=2, alpha=8, mode="mix", pput=55, prem=10, pget=0, pscan=0, piscan=35, pmem=0, pprobe=0, dumpevery=0, pmod=60)]
-        M = []
+        # the sequential cursor (YkIscan: findfirst / findnext transliterated) in every reachable state of the small tree model
+        M = ["MC_Iscan_5ok.cfg"] if q else ["MC_Iscan_5ok.cfg", "MC_Iscan_5b.cfg", "MC_Iscan_5F.cfg", "MC_Iscan_5G.cfg"]
     elif prop == "C12":
         on = ["C12"]
         m = 250 if q else 700
@@ -112,6 +114,9 @@ def main(prop, tier):
         if cfg == "MC_Tree_struct9S.cfg":
             # 12 single-layer keys at fan-out 3 (interior splits, new interior root, collapse): too many orders to enumerate, random walks instead
             seqtrace.model_check(chk, "MC_Tree_sim12.cfg", "random walks of the sequential model, 12 single-layer keys (interior split / collapse)", workers=4, simulate=250 if tier == "quick" else 3000, depth=45, timeout=1500)
+            continue
+        if cfg.startswith("MC_Iscan"):
+            seqtrace.model_check(chk, cfg, "exhaustive sequential cursor model " + cfg, timeout=2400, module="MC_Iscan", workers=14)
             continue
         seqtrace.model_check(chk, cfg, "exhaustive sequential model " + cfg, timeout=1500)
     # second seed set in thorough tier: same profiles, later seeds
